@@ -9,6 +9,7 @@ import (
 	"sort"
 	"strconv"
 	"strings"
+	"sync"
 	"time"
 	"unicode/utf8"
 
@@ -19,6 +20,10 @@ import (
 // These may persist between runs because a regular expression object
 // is essentially constant.
 var regCache map[string]*regexp.Regexp
+
+// regCacheLock protects regCache, which is shared by every evaluator
+// and so might be used from several goroutines at once.
+var regCacheLock sync.Mutex
 
 // init ensures that our regexp cache is populated
 func init() {
@@ -253,7 +258,9 @@ func fnMatch(args []object.Object) object.Object {
 	reg := args[1].Inspect()
 
 	// Look for the compiled regular-expression object in our cache.
+	regCacheLock.Lock()
 	r, ok := regCache[reg]
+	regCacheLock.Unlock()
 	if !ok {
 
 		// OK it wasn't found, so compile it.
@@ -267,7 +274,9 @@ func fnMatch(args []object.Object) object.Object {
 		}
 
 		// store in the cache for next time
+		regCacheLock.Lock()
 		regCache[reg] = r
+		regCacheLock.Unlock()
 	}
 
 	// Split the input by newline.
@@ -514,7 +523,9 @@ func fnReplace(args []object.Object) object.Object {
 
 
 	// Look for the compiled regular-expression object in our cache.
+	regCacheLock.Lock()
 	r, ok := regCache[reg]
+	regCacheLock.Unlock()
 	if !ok {
 
 		// OK it wasn't found, so compile it.
@@ -528,7 +539,9 @@ func fnReplace(args []object.Object) object.Object {
 		}
 
 		// store in the cache for next time
+		regCacheLock.Lock()
 		regCache[reg] = r
+		regCacheLock.Unlock()
 	}
 
 	out := r.ReplaceAll([]byte(str), []byte(replace))
